@@ -229,8 +229,9 @@ def fail_key(name, clause, n=None, kind=None):
     return "%s-%s" % (name.lower(), clause)
 
 
-def point_case(name, n, x, kind, meta, model=None, eps=None, clause=None):
-    return {"op": "point", "family": name, "dimension": n, "x": [float(t) for t in x], "kind": kind,
+def point_case(name, n, x, kind, meta, model=None, eps=None, clause=None, declared=False):
+    """`declared` = the optimum / direction below are the ones the implementation declared (replay re-reads them)."""
+    return {"op": "point", "family": name, "dimension": n, "x": [float(t) for t in x], "kind": kind, "declared": declared,
             "model_bits": None if model is None else bits(model), "model": model, "eps": eps,
             "optimum": meta["opt"], "coords": meta["coords"], "minimised": meta["minimised"], "clause": clause}
 
@@ -484,7 +485,7 @@ def run(ctx):
             if found is not None:
                 x, clause, what = found
                 ctx.fail(fail_key(name, clause, n), "%s(dimension=%d): %s; with the declared data: %s" % (name, n, why, what),
-                         point_case(name, n, x, "float", im, None, None, clause))
+                         point_case(name, n, x, "float", im, None, None, clause, declared=True))
             else:
                 ctx.fail(fail_key(name, "declared-data"), "%s(dimension=%d): %s; the theorems are about the documented constants "
                          "and no longer transfer" % (name, n, why),
@@ -678,6 +679,11 @@ def replay(ctx, rp):
         except Exception as e:
             print("constructor raises:", repr(e))
             return False
+        if c.get("declared"):       # the failing clause was evaluated with the data the implementation declares
+            im = impl_meta(name, n)
+            meta = {"opt": im["opt"], "coords": im["coords"], "minimised": im["minimised"]}
+            c = dict(c, optimum=im["opt"], coords=im["coords"], minimised=im["minimised"])
+            print("implementation declares: global_optimum %r, criteria %r, global_optimum_coords %r" % (im["opt"], im["criteria"], im["coords"]))
         ok = True
         for k in ([kind] + [q for q in ("float", "numpy") if q != kind]):
             if name == "XinSheYang3":
